@@ -1,6 +1,6 @@
 (** C06 for PostOrderIter. *)
 Require Import AT.Model.Base AT.Model.Rose AT.Model.Iter AT.Spec.IterSpec AT.Proofs.ListLemmas.
-Open Scope Z_scope.
+Local Open Scope Z_scope.
 
 Section P.
 Variables (f stop : id -> bool).
